@@ -19,6 +19,18 @@ theorem reducedRef_noChild {P : Program} (hch : ∀ n, (P.g.attr n).isOneofChild
   unfold reducedRef
   rw [filteredView_noChild hch s]
 
+/-- the `is_nested_oneof` flag does not change which DAG is built -/
+theorem reducedRef_nested {P : Program} {s : St} {a b : Node} {f1 f2 : Bool} (f3 : Bool) {d : DagRef}
+    (h : reducedRef P s a b f1 f2 false = some d) :
+    ∃ d', reducedRef P s a b f1 f2 f3 = some d' ∧ d'.dest = d.dest ∧ d'.nodes = d.nodes := by
+  unfold reducedRef at h ⊢
+  simp only [] at h ⊢
+  split at h
+  · cases h; exact ⟨_, rfl, rfl, rfl⟩
+  · split at h
+    · cases h
+    · cases h; exact ⟨_, rfl, rfl, rfl⟩
+
 /-- **the hypotheses of the stuck-freedom theorem from the executable check** (`livePB`, which the driver evaluates on the
 generated programs) -/
 theorem liveP_of_check {P : Program} (dl : List (Node × Nat)) (hsw : SwP P) (hy : ∀ cb n, P.cbYield cb n = 0)
@@ -46,7 +58,7 @@ theorem liveP_of_check {P : Program} (dl : List (Node × Nat)) (hsw : SwP P) (hy
       | none => rw [hc] at hs; cases hs
       | some l => rw [hc] at h; cases h
     · exact h
-  · intro s dst hdst
+  · intro s dst nst hdst
     have hmem : dst ∈ dagDests P := by
       unfold dagDests
       rcases hdst with h | ⟨e, he, hu, hcs⟩
@@ -60,7 +72,8 @@ theorem liveP_of_check {P : Program} (dl : List (Node × Nat)) (hsw : SwP P) (hy
     · next d hd =>
       simp only [Bool.and_eq_true, beq_iff_eq, List.contains_iff_mem, List.all_eq_true, decide_eq_true_eq] at this
       obtain ⟨⟨⟨g1, g2⟩, g3⟩, g4⟩ := this
-      exact ⟨d, hd, g1, g2, g3, g4⟩
+      obtain ⟨d', hd', e1, e2⟩ := reducedRef_nested nst hd
+      exact ⟨d', hd', by rw [e1]; exact g1, by rw [e2]; exact g2, by rw [e2]; exact g3, by rw [e2]; exact g4⟩
 
 /-! ### the demo pipeline (a switch with two cases) meets the hypotheses -/
 
